@@ -7,7 +7,9 @@ import (
 	"errors"
 	"fmt"
 	"io"
+	"runtime"
 	"strings"
+	"time"
 
 	"github.com/ddddddO/gtree"
 
@@ -51,6 +53,9 @@ var c05ErrKinds = []string{"eof", "wrapped-eof", "unexpected", "canceled", "dead
 
 // c05Run performs one walk; stopAt==0 means never stop. Returns the visited rows, the returned error,
 // the number of callback entries after the stop, and a panic text.
+// iterLeft: goroutines that an iterator walk left behind (set by c05Run, read and reset by c05Judge)
+var iterLeft int
+
 func c05Run(route, doc string, root *model.Node, fm model.Fmt4, stopAt int, kind ...string) (rows []sut.WalkRow, err error, after int, pan string) {
 	opts := sut.FmtOpts(fm)
 	errStop := errStop
@@ -87,6 +92,17 @@ func c05Run(route, doc string, root *model.Node, fm model.Fmt4, stopAt int, kind
 			if route == "iter-alias" {
 				it = gtree.WalkIterProgrammably
 			}
+			base := runtime.NumGoroutine()
+			defer func() {
+				// leaving the loop ends the iteration: whatever the iterator runs on (a pulled sequence, a helper
+				// goroutine) is gone shortly afterwards
+				for i := 0; i < 200 && runtime.NumGoroutine() > base; i++ {
+					time.Sleep(time.Millisecond)
+				}
+				if n := runtime.NumGoroutine(); n > base && pan == "" {
+					iterLeft = n - base
+				}
+			}()
 			for wn, e := range it(sut.BuildRoot(root), opts...) {
 				if stopped {
 					after++
@@ -144,6 +160,10 @@ func c05Judge(c *rep.Ctx, route, doc string, f model.Forest, fm model.Fmt4, stop
 	expN := n
 	if stopAt > 0 && stopAt <= n {
 		expN = stopAt
+	}
+	if iterLeft > 0 {
+		c.Violation("C05|iterator-not-ended|"+tag, fmt.Sprintf("doc=%q stopAt=%d: %d goroutine(s) of the iteration are still there 200 ms after the loop was left", doc, stopAt, iterLeft), len(doc), rp)
+		iterLeft = 0
 	}
 	if after > 0 {
 		c.Violation("C05|visit-after-stop|"+tag, fmt.Sprintf("doc=%q stopAt=%d: %d further visits after the stop", doc, stopAt, after), len(doc), rp)
